@@ -11,6 +11,7 @@ namespace {
 using namespace model;
 
 void run_c06(sim::RunCtx& ctx) {
+    gen::g_row_cap = 0;
     Table t;
     bool nested = sim::draw(10) < 7;
     if (nested) { peergen::SchemaOpts so; t = peergen::gen_nested_table(so, 3); } else t = peergen::gen_flat_any(6, 3, true);
